@@ -207,7 +207,13 @@ def _convert(ctx, rep, tmp):
         try:
             with warnings.catch_warnings():
                 warnings.simplefilter('ignore')
-                generator._convert_policy_json_to_yaml(['ns'], src, out)
+                # the command as an operator runs it (every other case: the function behind it)
+                if (len(fm) + len(regs)) % 2 == 0:
+                    generator.convert_policy_json_to_yaml(
+                        args=['--namespace', 'ns', '--policy-file', src, '--output-file', out], conf=cfg.ConfigOpts())
+                    rep.stat('convert_via_cli_entry')
+                else:
+                    generator._convert_policy_json_to_yaml(['ns'], src, out)
             with open(out) as fh:
                 res = policy.parse_file_contents(fh.read())
         except Exception as e:     # noqa
@@ -258,7 +264,12 @@ def _generate_and_redundant(ctx, rep, tmp):
         try:
             with warnings.catch_warnings():
                 warnings.simplefilter('ignore')
-                generator._generate_policy('ns', out)
+                if (len(main) + len(dfile)) % 2 == 0:
+                    cfg.CONF.reset()
+                    generator.generate_policy(args=['--namespace', 'ns', '--output-file', out])
+                    rep.stat('generate_via_cli_entry')
+                else:
+                    generator._generate_policy('ns', out)
             with open(out) as fh:
                 res = policy.parse_file_contents(fh.read())
         except Exception as e:     # noqa
@@ -283,7 +294,12 @@ def _generate_and_redundant(ctx, rep, tmp):
         buf = io.StringIO()
         with contextlib.redirect_stdout(buf), warnings.catch_warnings():
             warnings.simplefilter('ignore')
-            generator._list_redundant('ns')
+            if (len(main) + len(dfile)) % 2 == 0:
+                cfg.CONF.reset()
+                generator.list_redundant(args=['--namespace', 'ns'])
+                rep.stat('redundant_via_cli_entry')
+            else:
+                generator._list_redundant('ns')
         reported = []
         for ln in buf.getvalue().splitlines():
             if ln.startswith('"'):
